@@ -118,6 +118,11 @@ TERM_DOCS = {
     "| a | b |\n|---|---|\n| 1 | 2 |\nrow-ish\n": ["blockquote"],
     "head\n====\n\ntext\nmore\n": ["paragraph"],
     "> - in quote\n> lazy\n\n[r]: /u\n'title\nrest'\n": ["reference", "paragraph"],
+    # containers directly inside one another, then the same containers at top level (a chain fetched for the inner
+    # block is the object the outer block and every later parse fetch)
+    "- > quote in item\n  lazy\n\n> top quote\nlazy\n": ["blockquote"],
+    "> - item in quote\n> lazy\n\n- top item\nlazy\n\n| a |\n|---|\n| 1 |\nrow\n": ["blockquote", "paragraph", "list"],
+    "1. > q\n   > r\n2. [x]: /u\n   'y\n   z'\n\n> [p]: /q\n> 's\n> t'\n": ["list", "reference"],
 }
 CH4 = ["paragraph", "reference", "blockquote", "list"]
 
@@ -162,8 +167,16 @@ def term_record(job):
     if off:
         md.disable(["verif_t_" + c for c in off])
     active = [c for c in CH4 if "verif_t_" + c in md.get_active_rules()["block"]]
+
+    def chains():   # what the Ruler reports per chain (parsing is not a rule-management call: it must not change it)
+        return [[ch] + [getattr(f, "__name__", "?") for f in r.getRules(ch)] for ch in [""] + CH4]
+    pre = chains()
     md.parse(doc)
-    return {"ev": log[:400], "active": active, "expect": TERM_DOCS[doc]}
+    mid = chains()
+    n1 = len(log)
+    md.parse(doc)                                 # ... and a second parse consults what the first one did
+    return {"ev": log[:400], "active": active, "expect": TERM_DOCS[doc], "pre": pre, "post": mid, "post2": chains(),
+            "n1": n1, "n2": len(log) - n1}
 
 
 def term_membership(tier, rep):
